@@ -45,6 +45,14 @@ def base(which="B1"):
             {"kind": "latch", "in": "zero", "out": "q1", "type": "re", "ctrl": "clk", "init": 0, "cname": "l1"},
         ]
         return {"name": "top3", "inputs": ["clk"], "outputs": ["q0", "q1"], "items": items, "models": []}
+    if which == "B4":  # a feed-through (.conn between two model ports) and a port aliased to an internal net
+        items = [
+            {"kind": "gate", "model": "BUF", "conns": [["I", "a"], ["O", "n1"]], "cname": "g0", "attr": {"K": "v"}},
+            {"kind": "subckt", "model": "WIDE", "conns": [["D[0]", "n1"], ["D[1]", "unconn"], ["D[2]", "b"], ["Q", "q"]], "cname": "w0", "param": {"P": "1"}},
+            {"kind": "conn", "a": "a", "b": "y"},
+            {"kind": "conn", "a": "b", "b": "n1"},
+        ]
+        return {"name": "top4", "inputs": ["a", "b"], "outputs": ["y", "q"], "items": items, "models": models[1:]}
     raise KeyError(which)
 
 
@@ -117,7 +125,7 @@ engine_b.WORKERS[ID] = worker
 
 def cases(tier):
     out = []
-    for which in ("B1", "B2", "B3"):
+    for which in ("B1", "B2", "B3", "B4"):
         nitems = len(base(which)["items"])
         for order in itertools.permutations(range(nitems)):
             for models in ("after", "before", "none"):
